@@ -1,11 +1,12 @@
 import CalVerif.Prim.Wire
 import CalVerif.Model.De
+import CalVerif.Model.DeData
 /-! Driver for C09.
 
     `[hist] de <range> <cfg> <shape> <n> <sched> <std>`
         range  = `E` | `sr,sc,h,w/<cell>,<cell>,…` (row-major)
         cell   = `I:<i64>` `F:<16 hex>` `S:<utf8 hex|->` `B:0|1` `D:<16 hex>` `DI:<hex>` `DU:<hex>` `E:<kind>` `_`
-        cfg    = `N` | `A` | `C` | `C/<hex>/<hex>…`
+        cfg    = `N` | `A` | `C` | `C/<hex>/<hex>…` | `W-` | `W/<hex>…` (with_deserialize_headers: not a struct / struct fields)
         shape  = `seq` | `map`
         n      = number of `next` calls, or an op list `x,n2,s1,t2:3,k2,l,c,h` (next, nth(2), skip(1).next(), step_by(2).take(3),
                  take(2), last(), count(), size_hint only — each on `by_ref()`; adaptors are mapped to the `next`/`nth`
@@ -13,7 +14,11 @@ import CalVerif.Model.De
         sched  = `any,str,i64,…` (cell targets, cyclic per row)
         std    = `-` | `f<16 hex>=<hex>;p<hex>=<16 hex|x>;q<hex>=<8 hex|x>;…`  (f64::to_string, parse::<f64>, parse::<f32>)
       reply  = `<new> | <hint> | <item> | <hint> | …` (`n` items)
-    `convert <cell> <target> <row>,<col> <std>` → `<vals>` or `!<err>` -/
+    `convert <cell> <target> <row>,<col> <std>` → `<vals>` or `!<err>`
+    `data <cell> <row>,<col>` → `Data::deserialize` and `Option::<Data>::deserialize` of the cell
+    `visit <val>` → what `DataVisitor` builds for that `visit_*` call
+    `helper <cell> <row>,<col> <std>` → the four `deserialize_as_{i64,f64}_or_{none,string}` results
+        (std also: `a<hex>=<i64|x>` atoi_simd, `g<hex>=<16 hex|x>` fast_float2) -/
 
 open De
 
@@ -60,6 +65,8 @@ def parseCfg (w : String) : Option Headers :=
   if w = "N" then some .none else if w = "A" then some .all else
   match w.splitOn "/" with
   | "C" :: names => (names.mapM strOfHex).map Headers.custom
+  | ["W-"] => some (withDeserializeHeaders none)
+  | "W" :: names => (names.mapM strOfHex).map fun ns => withDeserializeHeaders (some ns)
   | _ => none
 
 def parseTarget (w : String) : Option Target :=
@@ -79,6 +86,8 @@ structure StdTab where
   fmt : List (Nat × Str) := []
   p64 : List (Str × Option Nat) := []
   p32 : List (Str × Option Nat) := []
+  atoi : List (Str × Option Int) := []
+  ff64 : List (Str × Option Nat) := []
 
 def parseStd (w : String) : Option StdTab :=
   if w = "-" then some {} else
@@ -98,6 +107,14 @@ def parseStd (w : String) : Option StdTab :=
       else if k.startsWith "q" then
         (match strOfHex body, optNat with
          | some s, some o => some { t with p32 := (s, o) :: t.p32 }
+         | _, _ => none)
+      else if k.startsWith "g" then
+        (match strOfHex body, optNat with
+         | some s, some o => some { t with ff64 := (s, o) :: t.ff64 }
+         | _, _ => none)
+      else if k.startsWith "a" then
+        (match strOfHex body, (if v = "x" then some none else v.toInt?.map some : Option (Option Int)) with
+         | some s, some o => some { t with atoi := (s, o) :: t.atoi }
          | _, _ => none)
       else none
     | _, _ => none) (some {})
@@ -233,6 +250,57 @@ def runDe (std : Std) (r : Range.Rng Data) (cfg : Headers) (sh : Shape) (ops : L
         go rest st' (showHint st' :: res :: acc)
     " | ".intercalate ("ok" :: showHint st0 :: go ops st0 [])
 
+/-- the `DataConv.Std` of a run: casts from the `De` model, `to_string` / `atoi_simd` / `fast_float2` as measured -/
+def StdTab.toConvStd (t : StdTab) : DataConv.Std where
+  floatToString b := match t.fmt.lookup b with | some s => s | none => "?".toList
+  intToString := intToStr
+  floatAsI64 := f64ToInt .i64
+  intAsF64 := intToF64
+  boolAsF64 b := if b then 0x3FF0000000000000 else 0
+  atoiI64 s := match t.atoi.lookup s with | some o => o | none => none
+  parseF64 s := match t.ff64.lookup s with | some o => o | none => none
+
+def showCell : Data → String
+  | .int v => s!"I:{v}"
+  | .float b => s!"F:{hexN b 16}"
+  | .string s => s!"S:{hexOfStr s}"
+  | .bool b => if b then "B:1" else "B:0"
+  | .dateTime b => s!"D:{hexN b 16}"
+  | .dateTimeIso s => s!"DI:{hexOfStr s}"
+  | .durationIso s => s!"DU:{hexOfStr s}"
+  | .error k => s!"E:{k}"
+  | .empty => "_"
+
+def parseNumTy (w : String) : Option NumTy :=
+  match w with
+  | "i8" => some .i8 | "i16" => some .i16 | "i32" => some .i32 | "i64" => some .i64
+  | "u8" => some .u8 | "u16" => some .u16 | "u32" => some .u32 | "u64" => some .u64
+  | _ => none
+
+def parseVal (w : String) : Option Val :=
+  if w = "unit" then some .unit else if w = "none" then some .none else if w = "some" then some .some
+  else if w = "nt" then some .newtype
+  else match w.splitOn ":" with
+    | ["b", v] => some (.bool (v = "1"))
+    | ["f32", h] => (natOfHex h).map Val.f32
+    | ["f64", h] => (natOfHex h).map Val.f64
+    | ["s", h] => (strOfHex h).map Val.str
+    | ["y", h] => (strOfHex h).map Val.bytes
+    | ["en", h] => (strOfHex h).map Val.enum
+    | ["c", n] => n.toNat?.map fun k => Val.char (Char.ofNat k)
+    | [t, v] => (match parseNumTy t, v.toInt? with
+      | some ty, some x => some (.int ty x)
+      | _, _ => none)
+    | _ => none
+
+def showDRes {α : Type} (f : α → String) : DRes α → String
+  | .ok a => f a
+  | .err e => showErr e
+  | .panic _ => "panic"
+
+def showF64Bits (b : Nat) : String :=
+  if b % 2 ^ 63 > 0x7FF0000000000000 then "nan" else hexN b 16
+
 def handle (line : String) : String :=
   match (match Wire.words line with | "hist" :: rest => rest | ws => ws) with
   | ["de", rg, cfg, sh, n, sched, std] =>
@@ -250,6 +318,31 @@ def handle (line : String) : String :=
         | .err e => showErr e
         | .panic _ => "panic")
      | _, _, _, _ => "bad-op")
+  | ["data", cell, pos] =>
+    (match parseCell cell, (pos.splitOn ",").mapM String.toNat? with
+     | some d, some [pr, pc] =>
+       showDRes showCell (dataOfCell d (pr, pc)) ++ " " ++
+         showDRes (fun o => match o with | some x => "some+" ++ showCell x | none => "none") (optDataOfCell d (pr, pc))
+     | _, _ => "bad-op")
+  | ["visit", v] =>
+    (match parseVal v with
+     | some x => (match dataVisitor x with
+       | .data d => showCell d
+       | .again => "again"
+       | .invalidType => "invalid")
+     | none => "bad-op")
+  | ["helper", cell, pos, std] =>
+    (match parseCell cell, (pos.splitOn ",").mapM String.toNat?, parseStd std with
+     | some d, some [pr, pc], some tab =>
+       let σ := tab.toConvStd
+       let p := (pr, pc)
+       let optI := fun (o : Option Int) => match o with | some v => s!"some:{v}" | none => "none"
+       let optF := fun (o : Option Nat) => match o with | some v => s!"some:{showF64Bits v}" | none => "none"
+       let exI := fun (o : Except Str Int) => match o with | .ok v => s!"ok:{v}" | .error t => s!"err:{hexOfStr t}"
+       let exF := fun (o : Except Str Nat) => match o with | .ok v => s!"ok:{showF64Bits v}" | .error t => s!"err:{hexOfStr t}"
+       " ".intercalate [showDRes optI (asI64OrNone σ d p), showDRes exI (asI64OrString σ d p),
+         showDRes optF (asF64OrNone σ d p), showDRes exF (asF64OrString σ d p)]
+     | _, _, _ => "bad-op")
   | _ => "bad-op"
 
 def main : IO Unit := Wire.run handle
